@@ -2115,8 +2115,10 @@ class C11(HistProp):
                 "depends only on the record under the cursor and spares OPT (such decisions exist: C11_delete_everything_but_opt); the same "
                 "from the object as the parser returned it, compressed or not (C11_walk_on_any_object, C11_delete_on_any_object, "
                 "C11_parsed_packets_are_such_objects): the first deletion runs the decompress-and-translate prologue, which lands on the "
-                "same record of the pointer-free packet. PARTIAL: the OPT-skipping variant of next() and the question section are decided "
-                "each run by the correspondence over all subsets of small sections.")
+                "same record of the pointer-free packet; the ordinary next(), which steps over the OPT record, yields the next record other "
+                "than OPT (C11_next_skips_opt) and the loop with it refines the machine on the section's records other than OPT "
+                "(C11_walk_with_next_refines_machine, C11_walk_with_next_exact). PARTIAL: the question section is decided each run by the "
+                "correspondence (with all subsets of small record sections as validation of the model).")
 
     def gen(self, rng, tier):
         import itertools
